@@ -11,34 +11,34 @@ Import ListNotations.
 Open Scope Z_scope.
 
 Section C01.
-  Variables (A W : Type) (wsrc : nat -> Z) (exec : A -> W -> Z -> W * list (cmd A)).
+  Variables (A W : Type) (wsrc : nat -> Z) (exec : A -> W -> Z -> W * list (cmd A)) (wfail : W -> bool).
 
   (** In every reachable state the pending events are sorted by (time up, priority
       down, weight up, asset id up), none is due before the clock, paused events
       can be resumed without landing in the past, and event identities are unique
       across pending, paused and dispatched events. *)
-  Theorem C01_invariant : forall s, reach A W wsrc exec s -> Inv A (snd s).
-  Proof. exact (reach_inv A W wsrc exec). Qed.
+  Theorem C01_invariant : forall s, reach A W wsrc exec wfail s -> Inv A (snd s).
+  Proof. exact (reach_inv A W wsrc exec wfail). Qed.
 
   (** step executes the pending event with the smallest time and, among those due
       at the same instant, the highest priority; the clock was not ahead of it. *)
   Theorem C01_step_takes_minimum : forall s r e q,
-    reach A W wsrc exec s -> queue (snd s) = e :: q -> step wsrc exec s = Some r ->
+    reach A W wsrc exec wfail s -> queue (snd s) = e :: q -> step wsrc exec wfail s = Some r ->
     (forall e', In e' q -> le_ev A e e') /\
     (forall e', In e' q -> e_time e <= e_time e') /\
     (forall e', In e' q -> e_time e' = e_time e -> e_prio e' <= e_prio e) /\
     now (snd s) <= e_time e.
-  Proof. exact (step_takes_minimum A W wsrc exec). Qed.
+  Proof. exact (step_takes_minimum A W wsrc exec wfail). Qed.
 
   (** the clock equals the time of the event being executed ... *)
   Theorem C01_clock_is_event_time : forall s r e q,
-    queue (snd s) = e :: q -> step wsrc exec s = Some r -> now (snd (res_val r)) = e_time e.
-  Proof. exact (step_clock A W wsrc exec). Qed.
+    queue (snd s) = e :: q -> step wsrc exec wfail s = Some r -> now (snd (res_val r)) = e_time e.
+  Proof. exact (step_clock A W wsrc exec wfail). Qed.
 
   (** ... and never decreases *)
   Theorem C01_clock_monotone : forall s r,
-    reach A W wsrc exec s -> step wsrc exec s = Some r -> now (snd s) <= now (snd (res_val r)).
-  Proof. exact (clock_monotone A W wsrc exec). Qed.
+    reach A W wsrc exec wfail s -> step wsrc exec wfail s = Some r -> now (snd s) <= now (snd (res_val r)).
+  Proof. exact (clock_monotone A W wsrc exec wfail). Qed.
 
   (** scheduling before the current time is rejected (ValueError) and changes nothing;
       scheduling at or after it is accepted *)
@@ -52,10 +52,10 @@ Section C01.
 
   (** an event is dispatched at most once and never pending again afterwards *)
   Theorem C01_at_most_once : forall s,
-    reach A W wsrc exec s ->
+    reach A W wsrc exec wfail s ->
     NoDup (map e_id (dispatched (snd s))) /\
     (forall e e', In e (dispatched (snd s)) -> In e' (queue (snd s) ++ paused (snd s)) -> e_id e <> e_id e').
-  Proof. exact (at_most_once A W wsrc exec). Qed.
+  Proof. exact (at_most_once A W wsrc exec wfail). Qed.
 
   (** run d from t0: ends at exactly t0+d, everything due by then (also events
       created while running) has been dispatched, nothing due later has.  For
@@ -65,13 +65,13 @@ Section C01.
     forall fuel d w (en : env A) s',
     Inv A en -> 0 <= d ->
     (forall e, In e (queue en ++ paused en) -> ev_ok A e) ->
-    run wsrc exec fuel d (w, en) = Some (Ok s') ->
+    run wsrc exec wfail fuel d (w, en) = Some (Ok s') ->
     now (snd s') = now en + d /\
     terminated (snd s') = true /\
     (forall e, In e (queue (snd s')) -> now en + d < e_time e) /\
     (forall e, In e (dispatched (snd s')) -> e_time e <= now en + d) /\
     Inv A (snd s').
-  Proof. exact (run_post A W wsrc exec). Qed.
+  Proof. exact (run_post A W wsrc exec wfail). Qed.
 End C01.
 
 Print Assumptions C01_invariant.
@@ -91,7 +91,7 @@ Example C01_run_nonvacuous :
   let ws := wgen 3 3 in
   match schedule ws init_env 0 112 1 (Some 0%nat) with
   | Ok en =>
-    match run ws (exec_env script) 100 40 ([], en) with
+    match run ws (exec_env script) (fun _ => false) 100 40 ([], en) with
     | Some (Ok s') => now (snd s') = 40 /\ length (fst s') = 11%nat
     | _ => False
     end
